@@ -496,6 +496,11 @@ def engine_key(seed, tier):
     return hashlib.sha1(('|'.join(h) + '|%s|%s' % (seed, tier)).encode()).hexdigest()[:16]
 
 
+IMPLICIT = {90: 'Mutex::lock', 91: 'Semaphore::acquire', 92: 'Semaphore::try_acquire', 93: 'Semaphore::add_permits',
+            94: 'Semaphore::close', 95: 'Semaphore::is_closed', 96: 'Semaphore::available_permits', 97: 'an atomic load',
+            98: 'an atomic update'}
+
+
 def analyze(traces, mobs_all):
     summ = {p: dict(mismatches=[], monitor_fails=[], evaluations=0, nontrivial=set(), steps=0) for p in PROPS}
     label_hist, op_hist, result_hist, ctor_hist = Counter(), Counter(), Counter(), Counter()
@@ -541,7 +546,13 @@ def analyze(traces, mobs_all):
                     break
                 a, b = proj(d), proj(m)
                 if a != b:
-                    s['mismatches'].append(dict(trace=ti, step=i, what='projection differs', impl=repr(a), model=repr(b)))
+                    what = 'projection differs'
+                    imp = [(j, c) for j, c in enumerate(d['tasks']) if 90 <= c <= 98]
+                    if imp:
+                        what = ('implicit schedule point reached: task %d performs %s away from its explicit schedule point '
+                                'and outside the lock region - a window the model (and the code it was written from) '
+                                'does not have' % (imp[0][0], IMPLICIT.get(imp[0][1], imp[0][1])))
+                    s['mismatches'].append(dict(trace=ti, step=i, what=what, impl=repr(a), model=repr(b)))
                     break
     for p in PROPS:
         summ[p]['nontrivial'] = len(summ[p]['nontrivial'])
